@@ -75,6 +75,15 @@ def ensure_built(clean=False):
                     os.unlink(os.path.join(COQ, fn))
                 except OSError:
                     pass
+        # the three client protocol classes -> coq/ProtoClsGen.v (C16); same fail-closed rule
+        rc2, out2, err2, _ = _run(['/venv/bin/python', os.path.join(VERIF, 'harness', 'pytrans2.py')], timeout=120)
+        if rc2 != 0:
+            trans_note += ' pytrans2 failed: ' + (out2 + err2)[-600:]
+            for fn in ('ProtoClsGen.v', 'ProtoClsGen.vo', 'ProtoClsEq.vo'):
+                try:
+                    os.unlink(os.path.join(COQ, fn))
+                except OSError:
+                    pass
         mk = os.path.join(COQ, 'Makefile')
         stale = (not os.path.exists(mk)) or os.path.getmtime(mk) < os.path.getmtime(os.path.join(COQ, '_CoqProject'))
         if clean or stale:
